@@ -19,8 +19,17 @@ HEAL_DRAIN = 3
 HEAL_BODY = 10 ** 6
 
 
-def gen_prefix(rng):
-    """Random schedule with faults anywhere.  Times are monotone; gaps sometimes exceed ZMQ_CONN_TIMEOUT."""
+def gen_eph(rng, hi):
+    """ANY request of an ephemeral client 'E' (model event `ephRequest`, lean/OFModel/Zmq/PairEph.lean); 'eph' is the model's field (wire value eph + 1)."""
+    k = rng.random()
+    mid = rng.randint(-1, max(0, hi) + 3) if k < 0.85 else (-3 if k < 0.95 else -2)
+    return {'k': 'eph', 'uid': rng.choice(['e0', 'e0', 'e1']), 'mid': mid, 'eph': 0 if rng.random() < 0.9 else 1, 'new': rng.random() < 0.3,
+            'body': rng.randint(1, 99) if mid == -2 else 0}
+
+
+def gen_prefix(rng, eph=0.0):
+    """Random schedule with faults anywhere.  Times are monotone; gaps sometimes exceed ZMQ_CONN_TIMEOUT.
+    eph > 0: requests of an adversarial ephemeral client are interleaved with that probability per step."""
     n = rng.randint(4, 36)
     style = rng.choice(['flow', 'flow', 'chaos', 'bursty'])
     evs, t, body = [], 1000, [0]
@@ -36,6 +45,9 @@ def gen_prefix(rng):
         return {'k': 'send', 'payload': payload, 't': t}
     pf = rng.choice([0.05, 0.1, 0.2, 0.35])
     while len(evs) < n:
+        if eph and rng.random() < eph:
+            for _ in range(rng.choice([1, 1, 2, 4])): evs.append(gen_eph(rng, len(evs) // 2))
+            if rng.random() < 0.5: evs.append(send())
         r = rng.random()
         if r < pf:
             evs.append({'k': rng.choice(['rc', 'rp']), 'g': rng.random() < 0.5})
@@ -64,7 +76,7 @@ class Rig:
         self.new_pub(); self.new_con()
 
     def new_pub(self):
-        self.S = S = self.Z.ZMQSender([ADDR], 'S')
+        self.S = S = self.Z.ZMQSender([ADDR], 'S', message_oob=lambda m: self.log.append({'k': 'oob', 'body': m[0]}))
         pub = S.pubs[0]; orig = pub.send_multipart
         def sm(msg, flags=0):
             self.log.append(sendfeed.decode_pub(0, msg)); return orig(msg, flags)
@@ -124,6 +136,12 @@ class Rig:
             else: self.crash(self.S)
             self.new_pub()
             obs = {'k': 'restarted'}
+        elif k == 'eph':      # the ephemeral client's PUSH socket delivers a request envelope to the publisher's PULL socket
+            env = {'cid': 'E', 'uid': ev['uid'], 'mid': ev['mid'], 'eph': ev['eph'] + 1}
+            if ev['new']: env['new'] = True
+            if ev['mid'] == -2: env['xtra'] = ev['body']
+            self.S.pulls[0].queue.append([json.dumps(env).encode()])
+            obs = {'k': 'restarted'}
         else:
             raise ValueError(k)
         w.deliver_due()
@@ -150,6 +168,16 @@ class Rig:
         for _ in range(HEAL_ROUNDS): evs += [mk(t2), {'k': 'recv'}]
         return evs
 
+    def heal_schedule_queue(self, t_now):
+        """The schedule `heal st t1 t2 b` of C06_pair_recovers / C05_pair_eph_recovers: one send per request queued at the REAL PULL socket."""
+        m = len(self.S.pulls[0].queue)
+        t1 = t_now
+        t2 = max([t1] + [c.t_last for c in self.S.clients.values()]) + self.Z.ZMQ_CONN_TIMEOUT + 1
+        mk = lambda t: {'k': 'send', 'payload': {'k': 'topics', 'ts': [['main', HEAL_BODY]]}, 't': t}
+        evs = [mk(t1) for _ in range(m)] + [{'k': 'recv'}]
+        for _ in range(HEAL_ROUNDS): evs += [mk(t2), {'k': 'recv'}]
+        return evs
+
     def natural_schedule(self, t_now, k):
         """Exploration only (no theorem behind it): k plain rounds [recv; send] one connection time-out later."""
         t2 = max([t_now] + [c.t_last for c in self.S.clients.values()]) + self.Z.ZMQ_CONN_TIMEOUT + 1
@@ -159,7 +187,7 @@ class Rig:
         return evs + [{'k': 'recv'}]
 
 
-def run_impl(trial, natural=0):
+def run_impl(trial, natural=0, per_queue=False):
     """Runs trial['prefix'] (+ the healing schedule, computed here from the real objects and stored in trial['heal']).
     Returns the per-event [(obs, snap)].  natural=k: use k plain rounds instead (exploration)."""
     logging.disable(logging.CRITICAL)
@@ -172,7 +200,7 @@ def run_impl(trial, natural=0):
     if natural:
         tail = rig.natural_schedule(t_now, natural)
     else:
-        if trial.get('heal') is None: trial['heal'] = rig.heal_schedule(t_now)
+        if trial.get('heal') is None: trial['heal'] = rig.heal_schedule_queue(t_now) if per_queue else rig.heal_schedule(t_now)
         tail = trial['heal']
         trial['prev_at_fault'] = rig.R.prev_id
     for ev in tail:
@@ -195,8 +223,60 @@ def natural_rounds(trial, k=12):
     return None
 
 
+def gen_stall(rng, n, t0):
+    """n send calls and no recv: the consumer is stalled.  Clock steps reach beyond ZMQ_CONN_TIMEOUT now and then."""
+    evs, t, body = [], t0, 5 * 10 ** 5
+    for _ in range(n):
+        t += rng.choice([0, 1, 50, 100, 100, 100, 100, 2500, 6000])
+        ts = []
+        for nm in rng.choice(TOPIC_SETS):
+            body += 1; ts.append([nm, body])
+        pk = rng.random()
+        payload = {'k': 'topics', 'ts': ts} if pk < 0.85 else {'k': 'deferred', 'ts': ts} if pk < 0.97 else {'k': 'deferred', 'ts': None}
+        evs.append({'k': 'send', 'payload': payload, 't': t})
+    return evs
+
+
+def run_stall(trial):
+    """C04 on the pair: trial['prefix'] then trial['stall'] (sends only) on the REAL classes.  Returns (per-event [(obs, snap)],
+    info) with info = ids of the frame sets queued at the real SUB socket that the consumer could still adopt, before / after the stall."""
+    logging.disable(logging.CRITICAL)
+    rig = Rig()
+    out = []
+    def adoptable():
+        snd = next(iter(rig.R.senders.values()))
+        ids = set()
+        for m in snd.sub.queue:
+            mid = json.loads(bytes(m[1]).decode())['mid']
+            if mid > rig.R.prev_id and mid >= 0: ids.add(mid)
+        return sorted(ids)
+    for ev in trial['prefix']: out.append((rig.event(ev), rig.snap()))
+    before = adoptable()
+    for ev in trial['stall']: out.append((rig.event(ev), rig.snap()))
+    after = adoptable()
+    for o in (rig.R, rig.S):
+        try: o.destroy()
+        except Exception: pass
+    return out, {'before': before, 'after': after}
+
+
+def stall_oracle(trial, obs, info):
+    """At most ONE frame set is published while the consumer is stalled (none if one is already waiting for it); at most one is queued."""
+    v = []
+    npre = len(trial['prefix'])
+    pubs = [sorted({x['mid'] for x in o['outs'] if x['k'] == 'pub' and x['mid'] >= 0}) for (o, _) in obs[npre:] if o['k'] == 'sent']
+    npub = sum(1 for p in pubs if p)
+    bound = 0 if info['before'] else 1
+    if npub > bound:
+        v.append(('pair-overrun-after-stall', f"{npub} frame sets published during a stall of {len(trial['stall'])} send calls (bound {bound}; "
+                  f"waiting before the stall: {info['before']}); ids {[p for p in pubs if p][:6]}"))
+    if len(info['after']) > 1:
+        v.append(('pair-overrun-after-stall', f"{len(info['after'])} frame sets {info['after'][:6]} queued towards the stalled consumer"))
+    return v
+
+
 def model_request(trial):
-    return {'op': 'pair.run', 'evs': trial['prefix'] + trial['heal']}
+    return {'op': 'pair.run', 'evs': trial['prefix'] + (trial['stall'] if 'stall' in trial else trial['heal'])}
 
 
 def canon_model(resp):
